@@ -1167,15 +1167,42 @@ where
                 done,
             } => {
                 let max_idx = new_entries.last().map(|e| e.index).unwrap_or(0);
+                // Entries below the cut that so far only live in memory go to the store first:
+                // writing the replacement tail ahead of them would leave a hole on disk if the
+                // process died in between.
+                let written_upto =
+                    (*pending_max).max(this.durable_index.load(Ordering::Acquire));
+                if truncate_from > written_upto + 1
+                    && let Ok(missing) =
+                        this.get_entries_range((written_upto + 1)..=(truncate_from - 1))
+                    && !missing.is_empty()
+                    && let Err(e) = this.log_store.persist_entries(missing).await
+                {
+                    error!("IOTask::ReplaceRange could not persist the prefix (fatal): {e:?}");
+                    let _ = done.send(Err(e));
+                    return true;
+                }
                 let result = this.log_store.replace_range(truncate_from, new_entries).await;
                 if let Err(ref e) = result {
                     error!("IOTask::ReplaceRange failed (fatal): {e:?}");
                     let _ = done.send(result);
                     return true; // signal batch_processor to exit — disk state is corrupted
                 }
-                // The range [truncate_from..] on disk is exactly `new_entries` now: a pending
-                // watermark beyond it refers to entries that no longer exist.
-                *pending_max = max_idx;
+                // The store now holds exactly the log up to the end of the replacement (or up
+                // to the cut when nothing was appended); a pending watermark beyond that refers
+                // to entries that no longer exist.
+                let covered = if max_idx > 0 {
+                    max_idx
+                } else {
+                    truncate_from.saturating_sub(1)
+                };
+                *pending_max = covered;
+                // The caller acknowledges the truncation as soon as `done` fires, so it has to
+                // be on stable storage by then: otherwise a power loss brings the replaced
+                // entries back.
+                if this.advance_durable_after_write(covered).await.is_ok() {
+                    *pending_max = 0;
+                }
                 let _ = done.send(result);
                 false
             }
@@ -1187,6 +1214,11 @@ where
             IOTask::Reset { done } => {
                 let result = this.log_store.reset().await;
                 *pending_max = 0; // disk wiped — pending page-cache watermark must be zeroed
+                if result.is_ok() && !this.log_store.is_write_durable() {
+                    // same reasoning as for ReplaceRange: a wipe the caller relies on must not
+                    // be undone by a power loss
+                    let _ = this.log_store.flush();
+                }
                 let _ = done.send(result);
                 false
             }
